@@ -47,6 +47,9 @@ func ParseGlyf(src []byte, locaOffsets []uint32) (Glyf, error) {
 		if start == end {
 			continue
 		}
+		if start > end || uint64(end) > uint64(len(src)) {
+			return nil, fmt.Errorf("invalid 'loca' offsets for glyph %d: [%d:%d] with 'glyf' length %d", i, start, end, len(src))
+		}
 		out[i], _, err = ParseGlyph(src[start:end])
 		if err != nil {
 			return nil, err
